@@ -89,10 +89,30 @@ def restricted_reaction(reaction):
     return ReactionInfo(transitions=keep, formalism=reaction.formalism)
 
 
+def relabelled_reaction(reaction):
+    """The same reaction with another LaTeX label of every intermediate particle: qrules compares particles without their labels,
+    so the transitions are equal objects for it, while every name the model derives from the labels differs."""
+    import attrs
+    from qrules.transition import ReactionInfo
+
+    out = []
+    for t in reaction.transitions:
+        inter = set(t.topology.intermediate_edge_ids)
+        states = {}
+        for i, st in t.states.items():
+            if i in inter:
+                p_ = st.particle
+                st = attrs.evolve(st, particle=attrs.evolve(p_, latex=(p_.latex or p_.name) + "^{\\star}"))
+            states[i] = st
+        out.append(attrs.evolve(t, states=states))
+    return ReactionInfo(transitions=out, formalism=reaction.formalism)
+
+
 class World:
     def __init__(self, reaction):
         self.reaction = reaction
         self.reaction_sub = restricted_reaction(reaction)
+        self.reaction_relab = relabelled_reaction(reaction)
         self.names = resonance_names(reaction)
         self.builders = {}
         self.naming_defaults = {}
@@ -102,7 +122,7 @@ class World:
 
         if b not in self.builders:
             # builder 3 works on the restricted reaction ("sub"), the others on the reaction as generated ("full")
-            self.builders[b] = ampform.get_builder(self.reaction_sub if b == 3 else self.reaction)
+            self.builders[b] = ampform.get_builder(self.reaction_sub if b == 3 else self.reaction_relab if b == 4 else self.reaction)
         return self.builders[b]
 
     def real_name(self, absname):
@@ -154,7 +174,7 @@ class World:
 def key_to_actions(key, b=None):
     cfg, choice, perm = key
     if b is None:
-        b = 3 if cfg.get("rx") == "sub" else 1
+        b = 3 if cfg.get("rx") == "sub" else 4 if cfg.get("rx") == "relab" else 1
     acts = [["SetAlign", b, cfg["align"]], ["SetStable", b, cfg["stable"]], ["SetScalar", b, cfg["scalar"]], ["SetCoup", b, cfg["coup"]]]
     if cfg.get("naming", "default") != "default":
         acts.append(["SetNaming", b, cfg["naming"]])
